@@ -255,6 +255,10 @@ class Runner:
                 cause = "lazy-own-names-setter"     # the lazy stack's own setter carries @erase_cache: not a recorded defect
             elif cause == "metadata-under-lock" and "names" in methods and e["at"] != nodepath:
                 cause = "lazy-member-names"
+            if self.prog["spec"].get("lock") == "memmap_" and cause in ("make_memmap", "metadata-under-lock") \
+                    and e.get("at", "") != nodepath and is_prefix(nodepath, e.get("at", "")):
+                # D7: a memmap_-locked tree has no lock graph — the node that is written cannot reach the nodes above it
+                cause = "memmap-subtree-unlock"
             sig = {"cause": cause, "effect": e["effect"], "explained": True}
         else:
             sig = {"cause": "none", "explained": False, "methods": ",".join(methods), "label": label}
